@@ -178,6 +178,7 @@ class ReflexiveTransitiveAccesss""")], 'C04.R6'),
         ('fde-inexact-operator-rule', [M_FDE_MC_DES], 'C03.R1'),
     ],
     'C10': [
+        ('necessity-gate-releases-node', [(KFDE, "                self._least_pending(branch)\n            ):\n                return", "                self._least_pending(branch)\n            ):\n                self[FilterHelper].release(node, branch)\n                return")], 'C10.R6'),
         ('necessity-redundancy-guard-wrong-world', [(KFDE, "                if (node, w2) in self[NodesWorlds][branch]:", "                if (node, w1) in self[NodesWorlds][branch]:")], 'C10.R6'),
         ('reflexive-guard-other-pair', [(RULES, "                pair = WorldPair(w, w)\n                if self[WorldIndex].has(branch, pair):", "                pair = WorldPair(w, w)\n                if self[WorldIndex].has(branch, WorldPair(0, w)):")], 'C10.R6'),
         ('possibility-skips-when-body-here', [(KFDE, "            w1 = node['world']\n            w2 = branch.new_world()", "            w1 = node['world']\n            if branch.has(sdwnode(si, d, w1)):\n                return\n            w2 = branch.new_world()")], 'C10.R6'),
